@@ -53,7 +53,10 @@ def main():
         return mod.selftest(seed)
     import glob
     for old in glob.glob(os.path.join(common.REPLAY_DIR, pid + '_*.json')):      # replays of earlier runs of this check
-        os.remove(old)
+        try:
+            os.remove(old)
+        except FileNotFoundError:     # another run of the same check removed it first
+            pass
     _watchdog(pid, args.tier)
     level = getattr(mod, 'LEVEL', 'model_checking')
     ev = common.Evidence(pid, args.tier, seed, level)
